@@ -489,8 +489,12 @@ def main(argv=None):
         if res["assumption_violated"]:
             pass
         elif c["kind"] == "exception":
-            if res["exc"] is not None and res["exc"][0] == c["exc"][0]:
-                hit = dict(label=c["label"], what="unexpected %s: %s" % (res["exc"][0], res["exc"][1]))
+            if res["exc"] is not None:
+                # the scenario expects no exception at all: whatever the real code raises here is the violation
+                # (the type may differ from the one seen under the NumPy shim)
+                hit = dict(label="exception:%s" % res["exc"][0], what="unexpected %s: %s" % (res["exc"][0], res["exc"][1]))
+            else:
+                unreproduced.append("%s / %s: raised under the shim (%s) but not on the real code" % (c["scenario"], c["label"], c["exc"][1][:120]))
         else:
             if res["exc"] is not None:
                 hit = dict(label="exception:%s" % res["exc"][0], what="unexpected %s: %s" % (res["exc"][0], res["exc"][1]))
